@@ -122,6 +122,18 @@ pub fn fixture(tier: Tier) -> Result<Fixture, Violation> {
         ex.expire = 0;
         d.push(Dgram { desc: "request with an expired token".into(), bytes: request_datagram(&make_token(&ex)), valid: Validity::Invalid });
     }
+    if tier == Tier::Thorough {
+        for i in 0..req.len() {
+            for b in 0..8u8 {
+                if i == 0 && b >= 4 {
+                    continue; // the prefix high nibble of a request is neither sealed nor interpreted
+                }
+                let mut x = req.clone();
+                x[i] ^= 1 << b;
+                d.push(Dgram { desc: format!("valid request with bit {} of byte {} flipped", b, i), bytes: x, valid: Validity::Invalid });
+            }
+        }
+    }
     // responses: genuine challenge of the source's own pending session, sealed with the right keys
     let open_ch = |bytes: &Vec<u8>, key: &[u8; 32]| -> Option<(u64, [u8; 300])> {
         let mut b = bytes.clone();
